@@ -11,7 +11,9 @@ the same version, i.e. an equal but newly created source / a rewritten file -, a
 ``put`` may carry a 4th element "earlier": the modification stamp (the file mtime for the FileSystemLoader) then
 moves *backwards* to a value older than every stamp used so far (backup restore, timestamp-preserving deploy);
 the default moves it forwards.  A stamp never repeats.  ``del`` removes it, ``swap`` assigns the other loader to ``env.loader``.  Every version renders a text
-naming loader, name and version, so the rendered output identifies the source that was compiled.
+naming loader, name and version, so the rendered output identifies the source that was compiled - except
+version 2, which is the EMPTY source (renders ''; an existing empty template is not a missing one: the
+observation kinds "rendered" and "notfound" are compared, not only the text).
 
 Oracle: a reference cache model (LRU keyed by (loader, name), storing the version/stamp compiled).
 After every operation the observation (rendered text or TemplateNotFound, number of compilations,
@@ -29,7 +31,7 @@ from vt import core
 PID = "C25"
 LEVEL = "exploration"
 RULE = (
-    "exhaustive histories ending in a fetch over {get(n), select([n, m]), put(n, v) (FileSystemLoader: with a later and with an earlier mtime), del(n), swap loader} for 2 names x 2 versions "
+    "exhaustive histories ending in a fetch over {get(n), select([n, m]), put(n, v) (FileSystemLoader: with a later and with an earlier mtime), del(n), swap loader} for 2 names x 2 source versions (a non-empty one and the EMPTY source; two non-empty ones at shorter lengths; all three in thorough) "
     "(length <= 4 quick / <= 5 thorough, plus length 6 on cache sizes 1 and 2: full alphabet on DictLoader, get/put/del only on the other loaders) and 3 names x 2 versions (length <= 3, plus length 4 on DictLoader with "
     "cache size 2, quick / <= 4, plus length 5 on DictLoader with cache size 2, thorough) "
     "x cache sizes {0, 1, 2, -1} x auto_reload {on, off} x {DictLoader, FunctionLoader returning str, FunctionLoader with an "
@@ -60,11 +62,18 @@ def remove_workdir():
     shutil.rmtree(os.path.join(core.VERIF, ".work", "c25-%d" % os.getpid()), ignore_errors=True)
 
 
+EMPTY = 2  # version number of the empty template source
+
+
 def source_text(li, name, version):
+    if version == EMPTY:
+        return ""
     return "L%d-%s-v%d:{{ 3 + 4 }}" % (li, name, version)
 
 
 def rendered_text(li, name, version):
+    if version == EMPTY:
+        return ""
     return "L%d-%s-v%d:7" % (li, name, version)
 
 
@@ -360,6 +369,8 @@ class Run:
                     break
             else:
                 self.labels.add("stale_served")
+            if got[1] == "":
+                self.labels.add("empty_source")
             if ncomp:
                 self.labels.add("compiled")
             else:
@@ -391,14 +402,14 @@ def check_case(case):
 # generators
 
 
-def alphabet(nnames, nversions, full=True, earlier=False):
+def alphabet(nnames, versions, full=True, earlier=False):
     names = NAMES[:nnames]
     fetch = [["get", n] for n in names]
     if full:
         fetch += [["select", n, m] for n in names for m in names if n != m]
-    other = [["put", n, v] for n in names for v in range(nversions)] + [["del", n] for n in names]
+    other = [["put", n, v] for n in names for v in versions] + [["del", n] for n in names]
     if earlier:
-        other += [["put", n, v, "earlier"] for n in names for v in range(nversions)]
+        other += [["put", n, v, "earlier"] for n in names for v in versions]
     if full:
         other.append(["swap"])
     return fetch, other
@@ -411,10 +422,10 @@ def configs(kinds=KINDS, caches=CACHES):
                 yield kind, cap, auto
 
 
-def histories(nnames, nversions, lengths, kinds=KINDS, caches=CACHES, full=True, earlier=False):
+def histories(nnames, versions, lengths, kinds=KINDS, caches=CACHES, full=True, earlier=False):
     """Every history of the given lengths whose last operation is a fetch (a history ending in a store
     operation makes the same observations as its prefix), as (nnames, history, kinds, caches)."""
-    fetch, other = alphabet(nnames, nversions, full, earlier)
+    fetch, other = alphabet(nnames, versions, full, earlier)
     ops = fetch + other
     for n in lengths:
         for head in itertools.product(ops, repeat=n - 1):
@@ -525,25 +536,33 @@ def shards(tier):
     return [{"i": i} for i in range(NSHARDS)]
 
 
+V01 = (0, 1)  # two non-empty sources
+V0E = (0, EMPTY)  # a non-empty and the empty source
+V01E = (0, 1, EMPTY)
+
+
 def all_enumerated(tier):
     if tier == "quick":
         return itertools.chain(
-            histories(2, 2, range(1, 5), kinds=MEM), histories(2, 2, range(1, 5), kinds=["fs"], earlier=True),
-            histories(3, 2, range(1, 4), kinds=MEM), histories(3, 2, range(1, 4), kinds=["fs"], earlier=True),
-            histories(3, 2, [4], kinds=["dict"], caches=[2]),
+            histories(2, V0E, range(1, 5), kinds=MEM), histories(2, V0E, range(1, 5), kinds=["fs"], earlier=True),
+            histories(2, V01, range(1, 4)),
+            histories(3, V0E, range(1, 4), kinds=MEM), histories(3, V0E, range(1, 4), kinds=["fs"], earlier=True),
+            histories(3, V01, [4], kinds=["dict"], caches=[2]),
         )
     return itertools.chain(
-        histories(2, 2, range(1, 6), kinds=MEM),
-        histories(2, 2, range(1, 5), kinds=["fs"], earlier=True),
-        histories(2, 2, [5], kinds=["fs"]),
-        histories(3, 2, range(1, 5), kinds=MEM),
-        histories(3, 2, range(1, 4), kinds=["fs"], earlier=True),
-        histories(3, 2, [4], kinds=["fs"]),
-        histories(3, 2, [5], kinds=["dict"], caches=[2]),
-        histories(2, 2, [6], kinds=["dict"], caches=[1, 2]),
-        histories(2, 2, [6], kinds=["func", "func_utd"], caches=[1, 2], full=False),
-        histories(2, 2, [5], kinds=["fs"], caches=[1, 2], full=False, earlier=True),
-        histories(2, 2, [6], kinds=["fs"], caches=[1, 2], full=False),
+        histories(2, V01E, range(1, 5), kinds=MEM),
+        histories(2, V0E, [5], kinds=MEM),
+        histories(2, V01, [5], kinds=MEM),
+        histories(2, V01E, range(1, 5), kinds=["fs"], earlier=True),
+        histories(2, V0E, [5], kinds=["fs"]),
+        histories(3, V0E, range(1, 5), kinds=MEM),
+        histories(3, V0E, range(1, 4), kinds=["fs"], earlier=True),
+        histories(3, V0E, [4], kinds=["fs"]),
+        histories(3, V01, [5], kinds=["dict"], caches=[2]),
+        histories(2, V0E, [6], kinds=["dict"], caches=[1, 2]),
+        histories(2, V0E, [6], kinds=["func", "func_utd"], caches=[1, 2], full=False),
+        histories(2, V0E, [5], kinds=["fs"], caches=[1, 2], full=False, earlier=True),
+        histories(2, V0E, [6], kinds=["fs"], caches=[1, 2], full=False),
     )
 
 
@@ -565,7 +584,7 @@ def floors(total, tier):
         return None
     lab = total.labels
     need = {"evict": 500, "stale_served": 500, "notfound": 500, "ambiguous_state": 100, "swap": 500, "select_fallback": 200,
-            "rewrite_same": 200, "stamp_earlier": 500, "hit": 500, "compiled": 500}
+            "rewrite_same": 200, "stamp_earlier": 500, "empty_source": 1000, "hit": 500, "compiled": 500}
     for k in KINDS:
         need["loader=" + k] = 1000
     low = ["%s=%d (< %d)" % (k, lab.get(k, 0), v) for k, v in need.items() if lab.get(k, 0) < v]
